@@ -11,8 +11,8 @@ one missing point hides a whole class of defects:
   an enum class with the short and the long (>= 11 members) message);
 * value classes: one value of every Python class a caller can plausibly hand over instead of the right
   one -- hashable and unhashable, orderable against numbers or not, falsy and truthy;
-* positions: the field itself, an element of Array / Deque (same item for all, positional), of Tuple, of
-  Set, a key and a value of Map.
+* positions: the field itself, an element of Array (also with uniqueItems) / Deque (same item for all,
+  positional), of Tuple, of Set, a key and a value of Map.
 
 Nothing here knows which combination is a defect: each point is evaluated by the same oracles and
 clauses as a random case (c18.evaluate_case)."""
@@ -102,6 +102,16 @@ def _arr_each(leaf, ok, bad):
             ("list", [ok, bad, ok]), ("list", [ok, ok, ok]), ("index", 1))
 
 
+def _arr_unique(leaf, ok, bad):
+    try:
+        if G.unreify(bad, {}) == G.unreify(ok, {}):
+            return None            # [bad, ok] would break uniqueness, not the item's type
+    except Exception:  # noqa
+        return None
+    return ({"t": "seqeach", "k": "list", "item": leaf, "sz": _NOSZ, "uniq": True},
+            ("list", [bad, ok]), ("list", [ok]), ("index", 0))
+
+
 def _deq_each(leaf, ok, bad):
     return ({"t": "seqeach", "k": "deque", "item": leaf, "sz": _NOSZ, "uniq": False},
             ("deque", [bad, ok]), ("deque", [ok, ok]), ("index", 0))
@@ -136,7 +146,8 @@ def _map_val(leaf, ok, bad):
             ("dict", [(("str", "k"), bad)]), ("dict", [(("str", "k"), ok)]), ("value",))
 
 
-POSITIONS = [("top", _top), ("array-item", _arr_each), ("deque-item", _deq_each), ("array-positional", _arr_pos),
+POSITIONS = [("top", _top), ("array-item", _arr_each), ("unique-array-item", _arr_unique), ("deque-item", _deq_each),
+             ("array-positional", _arr_pos),
              ("tuple-positional", _tuple), ("set-item", _set), ("map-key", _map_key), ("map-value", _map_val)]
 
 
